@@ -107,7 +107,7 @@ def run(rep):
         elif verdict != "ok":
             rep.violation(dict(kind="oracle", what=why, case=c, impl=o))
     # 2. generated races under the real scheduler
-    n = 60 if rep.tier == "quick" else 4000
+    n = 500 if rep.tier == "quick" else 4000
     if LS.broken(sk):
         n = max(n, 800)
     gen = [gen_case(rng, "s%d" % i) for i in range(n)]
